@@ -1,28 +1,170 @@
-(* C45 — Log formatting never fails and cannot forge log entries. *)
-From Coq Require Import List NArith.
+(* C45 — Log formatting never fails and cannot forge log entries.
+   tornado/log.py LogFormatter.format (+ the colour table of __init__) and _safe_unicode.
+   `format i` is the model of one call: Returned (line, record.exc_text afterwards) | Raised class. *)
+From Coq Require Import List NArith ZArith Bool String.
 Import ListNotations.
-From TV Require Import Lib.Obs C45.Model C45.Proofs C45.Run.
+From TV Require Import Lib.Obs C14.Utf8 C45.Model C45.PyPrims C45.Proofs C45.ProofsUtf8 C45.ProofsFmt C45.ProofsMain C45.Run
+  Gen.C45_src Gen.C45_equiv.
+Local Open Scope N_scope.
 
-(* For every record (any prefix/suffix produced by the format string, any message
-   text, any exception text) format is a total function whose result has four
-   spaces after every newline. *)
-Theorem C45_every_newline_is_indented : forall r, nl_indented (format r) = true.
+(* Every newline of every line format() returns is followed by four spaces — whatever the
+   format string, message, fallback text, colour codes and exception text were. *)
+Theorem C45_every_newline_is_indented : forall i out et,
+  format i = Returned (out, et) -> nl_indented out = true.
 Proof. exact format_newlines_indented. Qed.
 Print Assumptions C45_every_newline_is_indented.
 
-(* Positional reading: whatever message content follows a newline in the output
-   starts with indentation, so it cannot begin a new "[L date module:line]" entry. *)
-Theorem C45_no_forged_entry : forall r pre post,
-  format r = pre ++ NL :: post -> exists t, post = SP :: SP :: SP :: SP :: t.
+(* Positional reading: whatever follows a newline in the output starts with the indentation,
+   so message content cannot begin a new "[L date module:line]" entry. *)
+Theorem C45_no_forged_entry : forall i out et pre post,
+  format i = Returned (out, et) -> out = pre ++ NL :: post ->
+  exists t, post = SP :: SP :: SP :: SP :: t.
 Proof. exact format_no_forged_entry. Qed.
 Print Assumptions C45_no_forged_entry.
 
-(* Indentation is the only change made to the text. *)
-Theorem C45_content_preserved : forall r, unindent (format r) = unindented r.
+(* Line reading: every line of the output after the first starts with the 4-space indent. *)
+Theorem C45_later_lines_start_with_indent : forall i out et,
+  format i = Returned (out, et) -> Forall starts_indented (tl (split_nl out)).
+Proof. exact format_later_lines_indented. Qed.
+Print Assumptions C45_later_lines_start_with_indent.
+
+(* Removing the indentation gives back the content: the interpolated line (rstripped, then the
+   exception lines, when there is exception text) — indentation is the only change; and the
+   split/join of the exception text loses nothing. *)
+Theorem C45_content_preserved : forall i out et,
+  format i = Returned (out, et) ->
+  exists m formatted,
+    message_of i = Returned m /\
+    percent_format (in_fmt i) (format_env i m) = Returned formatted /\
+    unindent out = unindented formatted et.
 Proof. exact format_content_preserved. Qed.
 Print Assumptions C45_content_preserved.
 
-(* The model's output always satisfies the checker applied to the implementation. *)
+Theorem C45_split_join_lossless : forall s, join_nl (split_nl s) = s.
+Proof. exact join_split_nl. Qed.
+Print Assumptions C45_split_join_lossless.
+
+(* NEVER RAISES.  For every record of the domain (Run.in_domain: getMessage() returns anything or
+   raises ANY subclass of Exception; reprs, formatException and the format string are sane)
+   format() returns. *)
+Theorem C45_format_never_raises : forall i,
+  in_domain i = true -> exists out et, format i = Returned (out, et).
+Proof. exact format_total. Qed.
+Print Assumptions C45_format_never_raises.
+
+(* The fallback: whatever the class c of the exception raised by getMessage() — TypeError,
+   ValueError, KeyError, OverflowError, an arbitrary error from an argument's __str__ … — as long
+   as it derives from Exception, record.message becomes "Bad message (repr(e)): repr(__dict__)". *)
+Theorem C45_any_exception_takes_the_fallback : forall i c er dr,
+  in_getmsg i = GMRaise c (ReprOk er) -> is_subclass c EException = true ->
+  in_dict_repr i = ReprOk dr ->
+  message_of i = Returned (VStr (BAD1 ++ er ++ BAD2 ++ dr)).
+Proof. exact message_of_fallback. Qed.
+Print Assumptions C45_any_exception_takes_the_fallback.
+
+(* `except Exception` lets exactly five of the modelled classes through (BaseException,
+   KeyboardInterrupt, SystemExit, GeneratorExit, a user class derived from BaseException) ... *)
+Theorem C45_except_clause_is_wide : forall c,
+  except_catches FORMAT_EXCEPT c = negb (existsb (exc_eqb c) not_an_Exception).
+Proof. exact except_Exception_spec. Qed.
+Print Assumptions C45_except_clause_is_wide.
+
+(* ... and those propagate out of format() unchanged. *)
+Theorem C45_base_exceptions_propagate : forall i c r,
+  in_getmsg i = GMRaise c r -> is_subclass c EException = false -> format i = Raised c r.
+Proof. exact format_propagates_base_exception. Qed.
+Print Assumptions C45_base_exceptions_propagate.
+
+(* The assert: a getMessage() that returns a non-str is a "Bad message (AssertionError())" line. *)
+Theorem C45_non_str_message_is_bad_message : forall i v dr,
+  in_getmsg i = GMReturn v -> (forall t, v <> PStr t) -> in_optimized i = false ->
+  in_dict_repr i = ReprOk dr ->
+  message_of i = Returned (VStr (BAD1 ++ t_of_string "AssertionError()" ++ BAD2 ++ dr)).
+Proof. exact message_of_not_str. Qed.
+Print Assumptions C45_non_str_message_is_bad_message.
+
+(* _safe_unicode: total on bytes — the UTF-8 decoding when the bytes are valid, repr() otherwise;
+   the repr contains no newline at all; encoded text is decoded back (python -O path of format). *)
+Theorem C45_safe_unicode_bytes : forall b,
+  safe_unicode (PBytes b)
+  = Returned (PStr (match utf8_decode b with Some t => t | None => repr_bytes b end))
+  /\ has_nl (repr_bytes b) = false.
+Proof. intro b. split; [apply safe_unicode_bytes|apply repr_bytes_no_nl]. Qed.
+Print Assumptions C45_safe_unicode_bytes.
+
+(* A newline in the converted text can only come from a newline byte: neither a multi-byte
+   sequence nor the repr() fallback manufactures one. *)
+Theorem C45_safe_unicode_newline_origin : forall b t,
+  safe_unicode (PBytes b) = Returned (PStr t) -> has_nl t = true -> has_nl b = true.
+Proof. exact safe_unicode_newline_origin. Qed.
+Print Assumptions C45_safe_unicode_newline_origin.
+
+Theorem C45_safe_unicode_decodes_utf8 : forall t b,
+  utf8_encode t = Some b -> safe_unicode (PBytes b) = Returned (PStr t).
+Proof. exact safe_unicode_roundtrip. Qed.
+Print Assumptions C45_safe_unicode_decodes_utf8.
+
+Theorem C45_bytes_message_optimized : forall i b,
+  in_getmsg i = GMReturn (PBytes b) -> in_optimized i = true ->
+  message_of i = Returned (VStr (match utf8_decode b with Some t => t | None => repr_bytes b end)).
+Proof. exact message_of_bytes_optimized. Qed.
+Print Assumptions C45_bytes_message_optimized.
+
+(* Colour: the start / end codes never contain a newline; with the default format the start code
+   opens the line, the end code closes the bracketed prefix and the message follows both. *)
+Theorem C45_color_codes_have_no_newline : forall cfg lv,
+  has_nl (fst (colors_for cfg lv)) = false /\ has_nl (snd (colors_for cfg lv)) = false.
+Proof. exact color_codes_no_nl. Qed.
+Print Assumptions C45_color_codes_have_no_newline.
+
+Theorem C45_default_format_shape : forall i m ln md lno,
+  lookup K_levelname (in_fields i) = Some (VStr ln) ->
+  lookup K_module (in_fields i) = Some (VStr md) ->
+  lookup K_lineno (in_fields i) = Some (VInt lno) ->
+  percent_format DEFAULT_FORMAT (format_env i m)
+  = Returned (fst (colors_for (in_color i) (in_levelno i)) ++ [91] ++ pad false 1 (firstn 1 ln) ++ [32]
+              ++ in_asctime i ++ [32] ++ md ++ [58] ++ dec_Z lno ++ [93]
+              ++ snd (colors_for (in_color i) (in_levelno i)) ++ [32] ++ str_of_fval m).
+Proof. exact default_format_shape. Qed.
+Print Assumptions C45_default_format_shape.
+
+(* Whether `fmt % record.__dict__` fails, and with which class, does not depend on the message
+   (a str or None): message content cannot make the interpolation raise. *)
+Theorem C45_interpolation_independent_of_message : forall i m m',
+  vkind m = false -> vkind m' = false ->
+  erase (percent_format (in_fmt i) (format_env i m)) = erase (percent_format (in_fmt i) (format_env i m')).
+Proof. exact percent_shape. Qed.
+Print Assumptions C45_interpolation_independent_of_message.
+
+(* record.exc_text is cached exactly as formatException returned it (not indented), an already
+   cached text is left alone, and formatting the record again gives the same line. *)
+Theorem C45_exc_text_cached_plain : forall i out et,
+  format i = Returned (out, et) ->
+  (in_exc_info i = true -> truthy (in_exc_text i) = false ->
+     exists fe, in_format_exc i = Returned fe /\ et = Some fe)
+  /\ (in_exc_info i = false \/ truthy (in_exc_text i) = true -> et = in_exc_text i).
+Proof. exact format_caches_plain_exc_text. Qed.
+Print Assumptions C45_exc_text_cached_plain.
+
+Theorem C45_format_again_same : forall i out et,
+  format i = Returned (out, et) -> format (with_exc_text i et) = Returned (out, et).
+Proof. exact format_again_same. Qed.
+Print Assumptions C45_format_again_same.
+
+(* The model's observable always satisfies the checker that is applied to the implementation. *)
 Theorem C45_model_satisfies_checker : forall c, check_case c (run_case c) = true.
-Proof. intros [[[p m] s] e]. cbn [run_case check_case]. apply format_newlines_indented. Qed.
+Proof. exact model_satisfies_checker. Qed.
 Print Assumptions C45_model_satisfies_checker.
+
+(* What translators/c45_src.py regenerates from tornado/log.py on this run (statement by statement:
+   the try / assert / except clause and its f-string, the colour lookup, the interpolation, the
+   exc_info / exc_text block, split / join / replace with their literal arguments; _safe_unicode;
+   DEFAULT_FORMAT, DEFAULT_COLORS and the ANSI strings) is the model the theorems above are about. *)
+Theorem C45_source_matches_model :
+  (forall i, src_format i = format i) /\ (forall v, src_safe_unicode v = safe_unicode v) /\
+  src_DEFAULT_FORMAT = DEFAULT_FORMAT /\ src_DEFAULT_COLORS = DEFAULT_COLORS /\
+  src_ANSI_NORMAL = ANSI_NORMAL /\ (forall code, src_ansi_color code = ansi_color code).
+Proof.
+  split; [exact src_format_eq|]. split; [exact src_safe_unicode_eq|]. exact src_constants_eq.
+Qed.
+Print Assumptions C45_source_matches_model.
